@@ -1,6 +1,7 @@
 package secmem
 
 import (
+	"errors"
 	"bufio"
 	"bytes"
 	"fmt"
@@ -313,6 +314,7 @@ func TestC11(t *testing.T) {
 	r.Exhaustive(true)
 	r.Extra("sequence_length", L)
 	panickingReaders(t, r)
+	lateReaders(t, r)
 	concurrentC11(t, r)
 	rawRaceC11(t, r)
 	r.Finish(t)
@@ -544,6 +546,109 @@ func panickingReaders(t *testing.T, r *ev.Run) {
 				}
 				for _, v := range viol {
 					r.Violation(v[0], v[1], map[string]any{"impl": impl, "size": size, "how": how})
+				}
+			}
+		}
+	}
+}
+
+// lateReaders: a reader is inside its callback, a Close has been called and waits for it, and only then further
+// accesses arrive (through every access method). They are "later accesses": they are refused without running their
+// callback, so that the Close is postponed by nobody but the readers that were in flight when it was called; once
+// that reader leaves, the Close returns. Deterministic: synctest.Wait is the point at which the closer is parked.
+func lateReaders(t *testing.T, r *ev.Run) {
+	for _, impl := range []string{"protectedmemory", "memguard"} {
+		for _, size := range []int{1, 32, 4097} {
+			for _, late := range []string{"WithBytes", "WithBytesFunc", "Reader.Read", "all-three"} {
+				journal(fmt.Sprintf("C11 late reader impl=%s size=%d via=%s", impl, size, late))
+				var viol [][2]string
+				bad := func(sig, f string, a ...any) {
+					viol = append(viol, [2]string{sig + ":" + impl, fmt.Sprintf("%s size=%d late access via %s: ", impl, size, late) + fmt.Sprintf(f, a...)})
+				}
+				pv := func() (pv any) {
+					defer func() { pv = recover() }()
+					synctest.Test(t, func(t *testing.T) {
+						src := make([]byte, size)
+						for i := range src {
+							src[i] = byte(i*5 + 1)
+						}
+						want := append([]byte(nil), src...)
+						s, err := implFactory(impl).New(src)
+						if err != nil {
+							bad("c11-create-failed", "%v", err)
+							return
+						}
+						inA, leaveA, doneA := make(chan struct{}), make(chan struct{}), make(chan error, 1)
+						go func() {
+							doneA <- s.WithBytes(func(b []byte) error {
+								close(inA)
+								<-leaveA
+								if !bytes.Equal(b, want) {
+									return errors.New("other bytes")
+								}
+								return nil
+							})
+						}()
+						<-inA
+						closeDone := make(chan error, 1)
+						go func() { closeDone <- s.Close() }()
+						synctest.Wait() // the closer is waiting for reader A now
+						select {
+						case <-closeDone:
+							bad("c11-close-returned-while-reader-running", "Close returned while a reader callback was still running")
+						default:
+						}
+						try := func(how string) {
+							ran := false
+							var e error
+							switch how {
+							case "WithBytes":
+								e = s.WithBytes(func([]byte) error { ran = true; return nil })
+							case "WithBytesFunc":
+								_, e = s.WithBytesFunc(func([]byte) ([]byte, error) { ran = true; return nil, nil })
+							default:
+								var n int
+								n, e = s.NewReader().Read(make([]byte, 8))
+								ran = n > 0
+							}
+							if e == nil || ran {
+								bad("c11-access-admitted-after-close-was-called", "a Close had been called and was waiting for the one reader in flight; an access that arrived after that was let in (callback ran=%v, err=%v) instead of being refused", ran, e)
+							}
+						}
+						if late == "all-three" {
+							try("WithBytes")
+							try("WithBytesFunc")
+							try("Reader.Read")
+						} else {
+							try(late)
+						}
+						close(leaveA)
+						synctest.Wait()
+						select {
+						case e := <-closeDone:
+							if e != nil {
+								bad("c11-close-error", "Close: %v", e)
+							}
+						default:
+							bad("c11-close-postponed-by-late-reader", "the reader that was in flight when Close was called has left and Close has still not returned")
+						}
+						if e := <-doneA; e != nil {
+							bad("c11-reader-saw-other-bytes", "the in-flight reader: %v", e)
+						}
+						if !s.IsClosed() {
+							bad("c11-not-closed-after-close", "IsClosed is false after Close returned")
+						}
+					})
+					return nil
+				}()
+				r.Eval(1)
+				r.Count("late_reader_cases", 1)
+				r.Distinct(fmt.Sprintf("late|%s|%d|%s", impl, size, late))
+				if pv != nil {
+					viol = append(viol, [2]string{"c11-deadlock-or-crash:" + impl, fmt.Sprintf("%s size=%d late access via %s: %v", impl, size, late, pv)})
+				}
+				for _, v := range viol {
+					r.Violation(v[0], v[1], map[string]any{"impl": impl, "size": size, "late": late})
 				}
 			}
 		}
